@@ -64,8 +64,10 @@ pub fn plist(rng: &mut Rng) -> Vec<u8> {
     let good = rng.chance(3, 4);
     let n = if rng.chance(1, 10) { rng.range(20, 60) } else { rng.range(0, 12) };
     let mut t: Vec<u8> = vec![];
+    let crlf = rng.chance(1, 10);
     for _ in 0..n {
         t.extend_from_slice(&if good { good_line(rng) } else { line(rng) });
+        if crlf { t.push(b'\r'); }
         t.push(b'\n');
     }
     if rng.chance(1, 2) { t.pop(); }
